@@ -124,11 +124,8 @@ where
                 let mut ks: Vec<(&u64, &u128)> = inst.exact.iter().collect();
                 ks.sort();
                 for (k, v) in ks {
-                    let mut left = *v;
-                    while left > 0 {
-                        let step = left.min(200);
-                        reference.add_n(k, &p::<C>(&step.to_string()));
-                        left -= step;
+                    if *v > 0 {
+                        reference.add_n(k, &p::<C>(&v.to_string()));
                     }
                 }
                 if obs(&reference, &ctx.uni) != obs(&inst.f, &ctx.uni) {
